@@ -6,9 +6,11 @@
                               tree (optional) = the expression tree the harness rendered `text` from, in
                               Polish notation: `n<int>` `v<name>` `p<lexeme> e` `q<lexeme> e`
                               `b<lexeme> l r` `c c t e`
+    P <env> <text> [<tree>]   the same with `Config { portable: true }` (`++`/`--` anywhere are an error)
     U <text>                  totality only (text with non-ASCII alphanumerics, outside the model)
     S <opts> <globals> <kind> <locals> <exprs>
-                              shell-level scenario (see `Shell.lean`): opts `-`|`u` (set -u); globals/locals
+                              shell-level scenario (see `Shell.lean`): opts `-` or flags `u` (set -u) `p` (set -o
+                              portable); globals/locals
                               `-` or `name=K:payload,…` with K = s scalar (hex) | r read-only scalar (hex) |
                               a array (hex elements joined by `.`) | n declared without value (`-`);
                               kind top|fn|sub|fnsub|nest; exprs = hex texts joined by `,`.
@@ -79,10 +81,11 @@ def parsePolish : Nat → List String → Option (Spec.Expr × List String)
       pure (.cond c t e, r3)
     | _ => none
 
-def runE (envT textT : String) (treeWords : List String) : String :=
+def runE (portable : Bool) (envT textT : String) (treeWords : List String) : String :=
   match decEnv envT, decChars textT with
   | some env, some text =>
-    let model := showOutcome (evalStr text env)
+    let model := if portable then (match evalStrPortable text env with | some o => showOutcome o | none => "error")
+      else showOutcome (evalStr text env)
     let tree : Option (Option Spec.Expr) :=
       if treeWords.isEmpty then some none
       else match parsePolish (treeWords.length + 1) treeWords with
@@ -97,6 +100,7 @@ def runE (envT textT : String) (treeWords : List String) : String :=
         | none, none => "=error"
         | some e, tree =>
           if tree.isSome ∧ tree ≠ some e then "FAIL:spec-reads-another-tree"
+          else if portable ∧ Spec.hasIncDec e then "=error"
           else if !Spec.inScope e then "-"
           else "=" ++ showSpec (Spec.evalExact e env)
     model ++ "\t" ++ spec
@@ -127,8 +131,10 @@ def decKind : String → Option CtxKind
   | "top" => some .top | "fn" => some .fn | "sub" => some .sub | "fnsub" => some .fnsub
   | "nest" => some .nest | _ => none
 
-def showLine : Line → String
-  | .value s => encChars s
+/-- the third, sixth, … expansion of a body is written `T=$((…)); probe "$T"`, whose line starts with the
+    exit status of the assignment (= of the last command substitution in the expansion) -/
+def showLine (i : Nat) : Line → String
+  | .value (s, st) => if i % 3 = 2 then s!"{st}:" ++ encChars s else encChars s
   | .fields l => ",".intercalate (l.map encChars)
 
 def showVar (p : Name × SVar) : String :=
@@ -147,12 +153,35 @@ def showFinal (c : Ctx) : String :=
   let items := (c.map fun p => (String.ofList p.1, showVar p)).mergeSort (fun a b => a.1 ≤ b.1)
   if items.isEmpty then "-" else ",".intercalate (items.map (·.2))
 
+/-- the cause as the harness reads it from the shell's message -/
+def showShErr : ShErr → String
+  | .syntax .tokenError => "token"
+  | .syntax .incompleteExpression => "incomplete"
+  | .syntax .missingOperator => "missingop"
+  | .syntax .unclosedParenthesis => "paren"
+  | .syntax .questionWithoutColon => "question"
+  | .syntax .colonWithoutQuestion => "colon"
+  | .syntax .invalidOperator => "invalidop"
+  | .syntax .fuel => "FUEL"
+  | .portability => "portable"
+  | .eval .invalidVariableValue => "value"
+  | .eval .overflow => "overflow"
+  | .eval .divisionByZero => "divzero"
+  | .eval .leftShiftingNegative => "lshiftneg"
+  | .eval .reverseShifting => "revshift"
+  | .eval .assignmentToValue => "assignvalue"
+  | .eval .getVariableError => "unset"
+  | .eval .assignVariableError => "readonly"
+  | .unsetParameter => "unset"
+  | .modelPanic => "MODEL-PANIC"
+  | .badCase => "BAD-CASE"
+
 def showOutcome2 (o : Outcome2) : String :=
-  let ls := o.lines.map showLine
+  let ls := (o.lines.zipIdx).map fun (l, i) => showLine i l
   let tail := match o.final with
     | some c => "END " ++ showFinal c
     | none => "ERR"
-  "|".intercalate (ls ++ [tail])
+  "|".intercalate (ls ++ [tail]) ++ " E=" ++ (match o.err with | some e => showShErr e | none => "-")
 
 /-- Spec side: a stack of maps name ↦ text (innermost first) -/
 abbrev SMaps := List (List (Name × List Char))
@@ -189,12 +218,13 @@ inductive SBody where
 
 /-- expansions by the Spec: value by `evalExact` on the visible variables, every variable it changed is
     written back by `sAssign` -/
-def sBody (ms : SMaps) : List (List Char) → SBody
+def sBody (portable : Bool) (ms : SMaps) : List (List Char) → SBody
   | [] => .done [] ms
   | e :: rest =>
     match Spec.parseText (sSubst ms (e.length + 1) e) with
     | none => .failed []
     | some t =>
+      if portable ∧ Spec.hasIncDec t then .failed [] else
       if !Spec.inScope t then .silent else
       let flat : Spec.Env := allNames.filterMap fun n => (sVisible ms n).map fun v => (n, v)
       match Spec.evalExact t flat with
@@ -202,7 +232,7 @@ def sBody (ms : SMaps) : List (List Char) → SBody
       | some (v, env') =>
         let changed := env'.filter fun p => Spec.lookup flat p.1 ≠ some p.2
         let ms1 := changed.foldl (fun acc p => sAssign acc p.1 p.2) ms
-        match sBody ms1 rest with
+        match sBody portable ms1 rest with
         | .done vs m => .done ((toString v).toList :: vs) m
         | .failed vs => .failed ((toString v).toList :: vs)
         | .silent => .silent
@@ -218,50 +248,54 @@ def specScenario (sc : Scenario) : String :=
     c.mapM fun p => match p.2.value, p.2.readOnly with
       | .scalar v, false => some (p.1, v)
       | _, _ => none
-  match sc.nounset, plain sc.globals, plain sc.locals with
+  let hasSubst := sc.exprs.any fun e => (String.ofList e).contains "$("
+  match sc.nounset || hasSubst, plain sc.globals, plain sc.locals with
   | false, some g, some l =>
-    let vals (vs : List (List Char)) := vs.map encChars
-    let fin (ls : List String) (tail : String) := "=" ++ "|".intercalate (ls ++ [tail])
+    let vals (vs : List (List Char)) := (vs.zipIdx).map fun (v, i) => if i % 3 = 2 then "0:" ++ encChars v else encChars v
+    -- the Spec knows that an expansion fails, not the cause the shell names: it is silent then
+    let fin (ls : List String) (tail : String) := "=" ++ "|".intercalate (ls ++ [tail]) ++ " E=-"
     match sc.kind with
     | .top =>
-      match sBody [g] sc.exprs with
+      match sBody sc.portable [g] sc.exprs with
       | .done vs ms => fin (vals vs ++ sPrint ms) ("END " ++ sFinal (ms.getLast?.getD []))
-      | .failed vs => fin (vals vs) "ERR"
+      | .failed _ => "-"
       | .silent => "-"
     | .fn =>
-      match sBody [l, g] sc.exprs with
+      match sBody sc.portable [l, g] sc.exprs with
       | .done vs ms => fin (vals vs ++ sPrint ms ++ sPrint (ms.drop 1)) ("END " ++ sFinal (ms.getLast?.getD []))
-      | .failed vs => fin (vals vs) "ERR"
+      | .failed _ => "-"
       | .silent => "-"
     | .nest =>
-      match sBody [[], l, g] sc.exprs with
+      match sBody sc.portable [[], l, g] sc.exprs with
       | .done vs ms =>
         fin (vals vs ++ sPrint ms ++ sPrint (ms.drop 1) ++ sPrint (ms.drop 2)) ("END " ++ sFinal (ms.getLast?.getD []))
-      | .failed vs => fin (vals vs) "ERR"
+      | .failed _ => "-"
       | .silent => "-"
     | .sub =>
-      match sBody [g] sc.exprs with
+      match sBody sc.portable [g] sc.exprs with
       | .done vs ms => fin (vals vs ++ sPrint ms ++ sPrint [g]) ("END " ++ sFinal g)
-      | .failed vs => fin (vals vs ++ sPrint [g]) ("END " ++ sFinal g)
+      | .failed _ => "-"
       | .silent => "-"
     | .fnsub =>
-      match sBody [l, g] sc.exprs with
+      match sBody sc.portable [l, g] sc.exprs with
       | .done vs ms => fin (vals vs ++ sPrint ms ++ sPrint [l, g] ++ sPrint [g]) ("END " ++ sFinal g)
-      | .failed vs => fin (vals vs ++ sPrint [l, g] ++ sPrint [g]) ("END " ++ sFinal g)
+      | .failed _ => "-"
       | .silent => "-"
   | _, _, _ => "-"
 
 def runS (opts globals kind locals exprs : String) : String :=
   match decCtx globals, decKind kind, decCtx locals, (exprs.splitOn ",").mapM decChars with
   | some g, some k, some l, some es =>
-    if opts ≠ "-" ∧ opts ≠ "u" then "bad-case\t-" else
-    let sc : Scenario := { nounset := opts = "u", globals := g, kind := k, locals := l, exprs := es }
+    if opts ≠ "-" ∧ ¬ opts.toList.all (fun c => c = 'u' ∨ c = 'p') then "bad-case\t-" else
+    let sc : Scenario := { nounset := opts.contains 'u', portable := opts.contains 'p', globals := g, kind := k,
+                           locals := l, exprs := es }
     showOutcome2 (runScenario allNames sc) ++ "\t" ++ specScenario sc
   | _, _, _, _ => "bad-case\t-"
 
 def runLine (line : String) : String :=
   match words line with
-  | "E" :: envT :: textT :: tree => runE envT textT tree
+  | "E" :: envT :: textT :: tree => runE false envT textT tree
+  | "P" :: envT :: textT :: tree => runE true envT textT tree
   | ["U", _] => "total\t-"
   | ["S", opts, globals, kind, locals, exprs] => runS opts globals kind locals exprs
   | _ => "bad-case\t-"
